@@ -1,5 +1,6 @@
 """C11 -- El Torito boot structures point at the right bytes.  DESIGN.md section 8.11."""
 from harness import common, nsoracles, sysimg, syslevel, sysprops, sysrun
+from harness.props import etleaf
 
 MODULE = 'C11'
 
@@ -26,6 +27,8 @@ def boot_history(rng, cfg):
         ops.append(op)
         return nb
     nboot = rng.choice([1, 1, 2, 3, 4, 5, 6])
+    if rng.random() < 0.04:
+        nboot = 32          # 31 sections: the catalog fills its block exactly (no terminating entry)
     bootsizes = [rng.choice([64, 100, 2047, 2048, 2049, 4096, 5000, 6200, 1474560 if False else 3000]) for _ in range(nboot)]
     for i in range(rng.randrange(0, 4)):
         add_file('/' + syslevel.iso_file_name(cfg, 50 + i), rng.choice(syslevel.SIZES))
@@ -68,6 +71,8 @@ def boot_history(rng, cfg):
             sec['efi'] = True
         if rng.random() < 0.3:
             sec['boot_load_size'] = rng.choice([1, 4])
+        if rng.random() < 0.15:
+            sec['bootable'] = False      # the entry starts with 0x00, like the terminator
         ops.append(sec)
         if rng.random() < 0.3:
             add_file('/' + syslevel.iso_file_name(cfg, 90 + i), rng.choice(syslevel.SIZES))
@@ -132,6 +137,7 @@ def run(ctx):
         ctx.cov['correspondences'][name] = {'cases': len(rows), 'disagreements': len(bad)}
         for i in bad[:2]:
             ctx.broken.append({'name': 'correspondence:' + name, 'summary': 'translation disagrees with the Python method', 'coq_case': rows[i]})
+    etleaf.leaf_correspondence(ctx)
     # system level
     cfgs = syslevel.covering_configs(rng, 24)
     hist = []
